@@ -13,12 +13,21 @@ NOTE = ("Trusted base: the vsched scheduler/explorer and the vinstr source rewri
         "bounded thread/message/history sizes as listed in the evidence file.")
 
 CLAIMED = {
-    "C14": (H + " (sequential part: BFS keyed on ring geometry) + " + S + " (concurrent part, brute-force linearizability check of every explored history against the FIFO model)", "Sequential: every operation sequence up to depth 20 (quick) / 34 (thorough) from initial sizes 1..4 with state key (mod, head, tail, len), each return value compared with a slice model. Concurrent: 2 threads x 1-2 operations and 3 threads x 1 operation from 8 start states (empty, full, wrapped, about to grow), all schedules (unbounded search finished); every call/return history checked for linearizability.", "§5 C14"),
-    "C01": (S, "Exactly-once / content / per-sender order of delivery through the real Inbox+RingBuffer (1-3 sender threads, 2-5 messages, initial ring sizes 1-4 so that the ring grows while wrapped), and through the public engine API; deviation bound 2-3 (unbounded where the search finishes).", "§5 C01"),
-    "C02": (S, "At most one worker inside Invoke/Receive per actor and each invocation happens-after the previous one (vector clocks over the real synchronisation edges), under all schedules up to deviation bound 3 with a Processer that yields inside Invoke.", "§5 C02"),
-    "C05": (S, "Every history over {ok message, panics-once, always-panics} up to length 3 (quick) / 4 (thorough) within the restart budget, issued as one batch and by a racing driver thread, restart delay 0 and >0 (virtual time), deviation bound 1 (quick) / 2 (thorough): no escaped panic, Stopped to the failed incarnation, one ActorRestartedEvent per failure with the right count, fresh incarnation, queued messages redelivered in order exactly once, failing message not redelivered, bystander unaffected.", "§5 C05"),
     # id: (technique, level text, design ref)
+    "C01": (S, "Exactly-once / content / sender / happens-before order of delivery through the real Inbox+RingBuffer (1-3 sender threads, 2-5 messages, initial ring sizes 1-4 so that the ring grows while wrapped; a build with messageBatchSize scaled to 2 so that backlogs split into batches) and through the public engine API (goroutine senders, an actor sending from Receive, a cross-thread channel edge); deviation bound 2-3, unbounded where the pruned search finishes. Send a happened-before send b is decided from the scheduler's vector clocks over the program's real synchronisation (a.end <= b.start).", "§5 C01"),
+    "C02": (S, "At most one worker inside Invoke/Receive per actor and each invocation happens-after the previous one (vector clocks over the real synchronisation edges only), under all schedules up to deviation bound 3 with receivers that yield inside Receive; inbox level (2-3 senders racing with Start) and engine level (spawner, senders, Poison/Stop caller, a panic that restarts the actor on the worker goroutine).", "§5 C02"),
     "C03": (S, "All interleavings of Send (push, try-schedule), Start and the worker's last empty pop / running->idle CAS / Len re-check on the real Inbox+RingBuffer: unbounded (all schedules) for up to 3 threads, deviation bound 3 beyond; every quiescent end state must be idle with an empty ring and every pushed message invoked.", "§5 C03"),
+    "C04": (S + "; histories enumerated exhaustively as data choices", "Per-incarnation lifecycle protocol (Initialized, Started, user*, one final Stopped, nothing afterwards, Spawn returns after Started, sends from registration on are retained) for Spawn racing with senders and a Poison/Stop caller (deviation bound 2-3) and for every history over {message, panics-once, always-panics, Poison, Stop} up to length 3-4 issued as one batch and by a racing driver, MaxRestarts 0-2 (deviation bound 1-2).", "§5 C04"),
+    "C05": (S + "; crash points and fault sequences enumerated exhaustively as data choices", "Every history over {ok message, panics-once, always-panics} up to length 3 (quick) / 4 (thorough) within the restart budget, issued as one batch and by a racing driver thread, restart delay 0 and >0 (virtual time), deviation bound 1 (quick) / 2 (thorough): no escaped panic, Stopped to the failed incarnation, one ActorRestartedEvent per failure with the right count, fresh incarnation, queued messages redelivered in order exactly once ahead of later sends, failing message not redelivered, bystander unaffected.", "§5 C05"),
+    "C06": (S + "; placements of the budget-exhausting panic enumerated exhaustively", "MaxRestarts 0..2, every history over {message, always-panics} with exactly MaxRestarts+1 failures (first batch, replay of the restart buffer), as one batch and from a racing driver: exactly MaxRestarts ActorRestartedEvents then one ActorMaxRestartsExceededEvent, actor unregistered, one final Stopped, later send dead-letters, no panic escapes, bystander unaffected; deviation bound 1-2.", "§5 C06"),
+    "C07": (S + "; histories enumerated exhaustively as data choices", "Every history over {message, Poison, Stop} with one stop request (length <=4) and with one crash in front of the request or behind a non-graceful Stop, as one batch and from a racing driver, the driver waiting on the returned context and then probing: context done only after Stopped + unregistration, probe dead-letters, messages sent before a Poison are handled, pills never visible; deviation bound 1-2. Trigger families for the open findings D3 (second stop request) and D4 (panic while draining behind a graceful pill).", "§5 C07"),
+    "C08": (S, "Tree shapes 1x1, 1x2, 2x1 (thorough: 1x3, 2x2), root stopped by Poison or Stop, preceded by a leaf stopping itself while Children() is queried, a leaf or the root crashing once: every descendant handles Stopped and is unregistered before its ancestor's final Stopped and before the root's context is done; Parent(), Children() checked; deviation bound 1-2. Trigger families for the open findings (a child terminated by someone else while the parent shuts down).", "§5 C08"),
+    "C09": (S + " + exhaustive enumeration of targets x messages x senders x subscriber populations", "Targets {nil, never spawned, stopped, foreign address} x messages {int, string, pointer} x sender {nil, P} x subscriber populations {one monitor, two monitors, monitor + a subscriber that stopped without unsubscribing}, 1-2 sender threads: exactly one DeadLetterEvent / EngineRemoteMissingEvent per send at every live monitor with the original fields, none for nil, no panic, no blocked sender, quiescence below the step horizon (finiteness); deviation bound 1-3.", "§5 C09"),
+    "C10": (S + " + " + H, "2-3 threads spawning the same id concurrently (plus another id, an incumbent with pending messages, duplicate SpawnChild): exactly one Producer runs, one ActorDuplicateIdEvent per loser, incumbent undisturbed, GetPID non-nil once any Spawn returned (deviation bound 3, unbounded in the thorough tier); all operation sequences of length <=4 (thorough 5) over {spawn a, spawn b, stop+wait a, poison+wait a, send a, getpid a} against a map[id]incarnation model.", "§5 C10"),
+    "C11": (S + " with virtual time", "1-3 concurrent requesters to one or two echo actors replying 0-3 times, before or after the (virtual) timeout, plus late replies: Result returns the reply to that very request or an error no earlier than the timeout, response PID unregistered afterwards, late reply dead-letters exactly once, responder never left blocked; timer-vs-thread races are scheduler choices; deviation bound 2-3.", "§5 C11"),
+    "C12": (H + " + " + S, "All sequences of length <=4 (thorough 5) over {sub, unsub} x {pa, pb, pa' (equal value, distinct object)} + broadcast against a set-of-PID-values model; 2 concurrent broadcasters x 2 events (exactly once, per-broadcaster order; deviation bound 2-3); the engine's own lifecycle events (initialized, started, restarted, duplicate id, dead letter, stopped) exactly once per occurrence.", "§5 C12"),
+    "C13": (S + "; delivery paths enumerated exhaustively", "Middleware chains of length 1-3 with recording middlewares on every path a message can reach a receiver (spawn, user message, stop, poison, crash + restart, replay of the restart buffer, max restarts), one batch and racing driver: each middleware entered exactly once per delivery in configured order, receiver innermost, same message/sender inside the chain; deviation bound 1-2.", "§5 C13"),
+    "C14": (H + " (sequential part: BFS keyed on ring geometry) + " + S + " (concurrent part, brute-force linearizability check of every explored history against the FIFO model)", "Sequential: every operation sequence over {Push, Pop, PopN(1,2,3,1<<20), Len} up to depth 20 (quick) / 34 (thorough) from initial sizes 1..4 with state key (mod, head, tail, len), each return value compared with a slice model. Concurrent: 2 threads x 1-2 operations and 3 threads x 1 operation from 8 start states (empty, full, wrapped, about to grow), all schedules (unbounded search finished); every call/return history checked for linearizability.", "§5 C14"),
 }
 
 NOT_YET = "check not built yet in this session (planned: see DESIGN.md §5); not claimed until it runs green on the unchanged tree"
